@@ -28,7 +28,7 @@ PROPERTY = "C18"
 LEVEL = "fault_enumeration"
 RULE = ("one run = (platform {Ledger, SGX}, command {onboard, unlock, changepin, pubkeys}, device state "
         "{mode bootloader / signer / ui-heartbeat / foreign app, onboarded y/n, echo ok/altered}, operator "
-        "script {PIN valid / too short / digits only / non-alphanumeric / none, on argv or typed after "
+        "script {PIN valid / too short / digits only / non-alphanumeric / none / empty string, on argv or typed after "
         "0..2 invalid attempts (incl. letters / digits outside ASCII), --anypin, answers yes / no / "
         "other-then-yes / other-then-no / 3..5 non-answers then no or EOF, --nounlock, "
         "--noexec}); enumerated: the full product of the enum dimensions; seeded: PIN strings and "
@@ -53,11 +53,11 @@ ASSUMPTIONS = [
 
 COMMANDS = ["onboard", "unlock", "changepin", "pubkeys"]
 MODES = ["bootloader", "signer", "ui-heartbeat", "foreign"]
-PINKINDS = ["valid", "short", "digits", "nonalnum", "none"]
+PINKINDS = ["valid", "short", "digits", "nonalnum", "none", "empty"]
 ANSWERS = [["yes"], ["no"], ["maybe", "yes"], ["Y", "no"], ["YES"],
            # an operator who keeps answering something else: no number of non-answers is a yes
            ["maybe", "", "y", "no"], ["a", "b", "c"], ["ok", "sure", "fine", "go", "yes please", "n"]]
-DIMS = [[0, 1], list(range(4)), list(range(4)), [0, 1], [0, 1], list(range(5)), [0, 1], [0, 1, 2],
+DIMS = [[0, 1], list(range(4)), list(range(4)), [0, 1], [0, 1], list(range(6)), [0, 1], [0, 1, 2],
         list(range(len(ANSWERS))), [0, 1], [0, 1]]
 
 
@@ -68,6 +68,8 @@ def make_pin(ch, kind):
         return ch.pick(["abc123", "a", "abcd123"], "pin.short")
     if kind == "digits":
         return "12345678"
+    if kind == "empty":
+        return ""              # -p "$PIN" with the variable unset: given, and not a PIN
     if kind == "nonalnum":
         # punctuation, and letters / digits outside ASCII (what str.isalnum() or a byte-wise
         # Latin-1 reading would let through); 8 characters or 8 UTF-8 bytes
@@ -84,7 +86,7 @@ def run_one(ch, cfg):
     mode = MODES[ch.draw(4, "mode")]
     onboarded = ch.draw(2, "not-onboarded") == 0
     echo_ok = ch.draw(2, "echo-bad") == 0
-    pinkind = PINKINDS[ch.draw(5, "pin-kind")]
+    pinkind = PINKINDS[ch.draw(6, "pin-kind")]
     via_prompt = ch.draw(2, "pin-via-prompt") == 1
     bad_attempts = ch.draw(3, "invalid-attempts-first")
     answers = ANSWERS[ch.draw(len(ANSWERS), "answers")]
